@@ -5,6 +5,7 @@ import (
 	"context"
 	"crypto/sha256"
 	"encoding/binary"
+	"errors"
 	"fmt"
 	"io"
 	"os"
@@ -56,30 +57,34 @@ type pendingCall struct {
 }
 
 type world struct {
-	r        *vk.Run
-	tag      string // seed/script identification used in finding texts
-	cfg      Cfg
-	dir      string
-	st       *store.ImmuStore
-	clock    atomic.Int64
-	holder   *store.Tx
-	seen     []*txRecord // first report of every committed id (index id-1)
-	pending  []*pendingCall
-	stepIdx  int
-	discards int  // number of discards that removed something so far
-	reopenAD bool // a reopen was executed after such a discard
-	violated bool
+	r          *vk.Run
+	tag        string // seed/script identification used in finding texts
+	cfg        Cfg
+	dir        string
+	st         *store.ImmuStore
+	clock      atomic.Int64
+	holder     *store.Tx
+	seen       []*txRecord // first report of every committed id (index id-1)
+	pending    []*pendingCall
+	stepIdx    int
+	discards   int  // number of discards that removed something so far
+	reopenAD   bool // a reopen was executed after such a discard
+	violated   bool
 	concurrent bool
-	extSeen  bool // external commit allowance is or has been enabled in this script
-	ahtDirty bool // a precommit attempt was made after a Discard that removed something (non-embedded store): the
-	// AHT then keeps physical leftovers (digest log is never truncated) that the list-of-leaves AHT of the model
-	// does not represent; random scripts do not reopen the store from then on (directed scripts do)
-	transient int // read errors that disappeared on retry
-	blzero   int  // committed txs with BlTxID = 0 and a non-zero BlRoot (stale pooled tx holder)
-	keysLive map[string]bool // committed keys whose last write is not a tombstone / never tombstoned
-	keysUsed map[string]bool // keys ever submitted in any commit attempt
-	mu       sync.Mutex      // serialises r.Finding in the concurrent phase
-	findings map[string]bool
+	extSeen    bool // external commit allowance is or has been enabled in this script
+	ahtDirty   bool // external commit allowance in use and a precommit attempt was made after a Discard that removed
+	// something (non-embedded store): a commit loop that stopped midway may have left commit-log entries that a
+	// reopen turns into committed transactions, whose leaves in the AHT (physical leftovers of its never truncated
+	// digest log) the list-of-leaves AHT of the model does not represent; random scripts do not reopen the store
+	// from then on (directed scripts do). Without allowance OpenWith rebuilds the tree beyond the committed txs.
+	collect   bool // falsifier-only scenario: findings are collected instead of reported
+	collected []string
+	transient int             // read errors that disappeared on retry
+	blzero    int             // committed txs with BlTxID = 0 and a non-zero BlRoot (stale pooled tx holder)
+	keysLive  map[string]bool // committed keys whose last write is not a tombstone / never tombstoned
+	keysUsed  map[string]bool // keys ever submitted in any commit attempt
+	mu        sync.Mutex      // serialises r.Finding in the concurrent phase
+	findings  map[string]bool
 }
 
 func (w *world) finding(format string, args ...any) {
@@ -87,6 +92,10 @@ func (w *world) finding(format string, args ...any) {
 	defer w.mu.Unlock()
 	w.violated = true
 	s := fmt.Sprintf(format, args...)
+	if w.collect {
+		w.collected = append(w.collected, s)
+		return
+	}
 	// one finding per tag and script is enough (a broken history repeats at every later step)
 	tag, rest := s, ""
 	if i := bytes.IndexByte([]byte(s), ':'); i > 0 {
@@ -553,10 +562,15 @@ func (w *world) runCommit(repl bool, call func(ctx context.Context) (*store.TxHe
 			return true, res.hdr.ID, a[:], staleOf(res.hdr)
 		}
 		if now == before+1 {
-			// an error was returned although the transaction is precommitted
 			h, err := w.readHdr(now, true, false)
 			if err == nil {
 				a := h.Alh()
+				if errors.Is(res.err, context.Canceled) {
+					// the precommit happened; the call was waiting for the commit when our own wait limit
+					// (slow machine) cancelled its context
+					return true, now, a[:], staleOf(h)
+				}
+				// an error was returned although the transaction is precommitted
 				return false, now, a[:], staleOf(h)
 			}
 		}
@@ -604,7 +618,7 @@ func (w *world) exec(s *Step) (term string, fatal bool) {
 		w.observeQuiet()
 		return "", false
 	case "pre":
-		if w.discards > 0 && !w.cfg.Embedded && s.Cancel == "" {
+		if w.discards > 0 && !w.cfg.Embedded && s.Cancel == "" && w.extSeen {
 			w.ahtDirty = true
 		}
 		w.clock.Store(s.Ts)
@@ -669,7 +683,8 @@ func (w *world) exec(s *Step) (term string, fatal bool) {
 		if s.Exp != nil && s.ExpN < len(ents) {
 			ents = ents[:s.ExpN]
 		}
-		return fmt.Sprintf("TPre %d %s %s %s %s %s", s.C, specTerm(ents, s.Md, s.Ts, s.PcExp, s.Cancel != ""), exp, vk.Bool(s.SkipIC), hx(stale), obsTerm(o)), false
+		_ = stale
+		return fmt.Sprintf("TPre %d %s %s %s %s", s.C, specTerm(ents, s.Md, s.Ts, s.PcExp, s.Cancel != ""), exp, vk.Bool(s.SkipIC), obsTerm(o)), false
 	case "sync":
 		err := w.st.Sync()
 		o := w.observe()
